@@ -1,0 +1,20 @@
+//go:build verif
+
+package master
+
+import (
+	"github.com/lindb/lindb/constants"
+	"github.com/lindb/lindb/coordinator/discovery"
+)
+
+// VerifProcessEvent feeds one discovery event synchronously into the master state manager (the same
+// processEvent the consumeEvent goroutine calls for events taken from the channel). processEvent recovers
+// panics of the handlers itself; panicked reports whether that happened (read from the panic counter the
+// recover branch increments). Verification hook for /verif property C18; no behaviour change.
+func VerifProcessEvent(sm StateManager, e *discovery.Event) (panicked bool) {
+	m := sm.(*stateManager)
+	c := m.statistics.Panics.WithTagValues(e.Type.String(), constants.MasterRole)
+	before := c.Get()
+	m.processEvent(e)
+	return c.Get() != before
+}
